@@ -175,6 +175,18 @@ fn apply_call(s: &mut Summary, call: &[u8]) -> Option<()> {
             let _ = getters(s);
             let _ = s.is_completed();
         }
+        5 => {
+            // the entry is replaced by a clone of itself: same values
+            let c = s.clone();
+            *s = c;
+        }
+        6 => {
+            // moved out with mem::take (leaving `Summary::default()` behind) and moved back in
+            let t = std::mem::take(s);
+            let _ = (s.is_completed(), s.to_string().len());
+            *s = t;
+        }
+        7 => {}    // constructor choice, handled by the caller (only meaningful as the first call)
         _ => return None,
     }
     Some(())
@@ -187,7 +199,8 @@ fn exec(op: &Op) -> String {
             parse_result(t, true)
         }
         "summary.ops" => {
-            let mut s = Summary::new();
+            // kind 7 as the first call: the entry is `Summary::default()`, not `Summary::new()`
+            let mut s = if op.args.first().and_then(|c| c.first()) == Some(&7u8) { Summary::default() } else { Summary::new() };
             for c in &op.args {
                 if apply_call(&mut s, c).is_none() {
                     return "BAD-CALL".into();
